@@ -117,8 +117,14 @@ class Ctx:
                 gsites = [g for k, g in enumerate(gsites) if k in which]
         gname = gname or (gpred if isinstance(gpred, str) else 'guard')
         if len(gsites) < min_guards:
-            raise Inconclusive('ANCHOR-MISSING: %s in %s: %d guard call(s) of %s (floor %d)'
-                               % (rule, F.name, len(gsites), gname, min_guards))
+            # a missing guard is a violation, not a missing anchor: the sinks are reached without it
+            for (sb, sspan, slabel) in sinks:
+                self.ob(rule, F.name, 'guard %s=%s before %s' % (gname, accept, slabel), False, sink_at=atxt(sspan),
+                        problem='%d call(s) of the guard in this function, %d required' % (len(gsites), min_guards))
+            if not sinks:
+                raise Inconclusive('ANCHOR-MISSING: %s in %s: %d guard call(s) of %s (floor %d) and no sink'
+                                   % (rule, F.name, len(gsites), gname, min_guards))
+            return False
         gf = GuardFlow(F, self.prog.cfg(F))
         allok = True
         for gi, (gb, gt) in enumerate(gsites):
@@ -166,7 +172,12 @@ class Ctx:
     def stmt_guard(self, rule, F, sites, accept, sinks, unconditional=True, gname='comparison', min_guards=1):
         """P2 with a primitive comparison statement as the guard.  sites: [(bid, idx, ...)] from cmp_stmts."""
         if len(sites) < min_guards:
-            raise Inconclusive('ANCHOR-MISSING: %s in %s: %d comparison(s) %s (floor %d)' % (rule, F.name, len(sites), gname, min_guards))
+            for (sb, sspan, slabel) in sinks:
+                self.ob(rule, F.name, 'guard %s=%s before %s' % (gname, accept, slabel), False, sink_at=atxt(sspan),
+                        problem='%d comparison(s) of this shape in this function, %d required' % (len(sites), min_guards))
+            if not sinks:
+                raise Inconclusive('ANCHOR-MISSING: %s in %s: %d comparison(s) %s (floor %d) and no sink' % (rule, F.name, len(sites), gname, min_guards))
+            return False
         gf = GuardFlow(F, self.prog.cfg(F))
         allok = True
         for gi, site in enumerate(sites):
